@@ -27,12 +27,12 @@ type shimModel struct {
 	modeOnK  int64                   // ... whose value "no-upstream mode on" is this constant
 	modeVals map[int64]bool
 	modeSrc  *ssa.Parameter // the constructor's bool parameter the mode is derived from (enum form)
-	fCerts   string                  // map[hashcode]*certificate
-	fCache   string                  // map[hashcode]struct{}
-	fAgent   string                  // agent.ExtendedAgent
-	fConn    string                  // io.ReadWriteCloser
-	fMu      string                  // sync.RWMutex
-	fNoUp    string                  // the other bool field (no-upstream mode)
+	fCerts   string         // map[hashcode]*certificate
+	fCache   string         // map[hashcode]struct{}
+	fAgent   string         // agent.ExtendedAgent
+	fConn    string         // io.ReadWriteCloser
+	fMu      string         // sync.RWMutex
+	fNoUp    string         // the other bool field (no-upstream mode)
 	fConds   string
 	Methods  map[string]*ssa.Function // exported + unexported methods of *Server by name
 	problems []string
@@ -727,40 +727,79 @@ func runC08(c *Ctx) {
 		within(fr, func(fn *ssa.Function, view *Facts) {
 			live := func(b *ssa.BasicBlock) bool { return fr.site == nil || view.At(b) != nil }
 			// Sign-like delegation: a method whose only effect is a call of another gated method needs no test of its own
-			for _, b := range fn.Blocks {
-				if fn.Recover == b || !live(b) {
-					continue
+			scanned := map[*ssa.Function]bool{}
+			var scan func(g *ssa.Function, depth int)
+			scan = func(g *ssa.Function, depth int) {
+				if scanned[g] {
+					return
 				}
-				for _, ins := range b.Instrs {
-					what, ok := m.effect(fn, ins)
-					if !ok {
+				scanned[g] = true
+				for _, b := range g.Blocks {
+					if g.Recover == b || (g == fn && !live(b)) || (g != fn && view.At(b) == nil) {
 						continue
 					}
-					if call, isCall := ins.(ssa.CallInstruction); isCall {
-						if callee := call.Common().StaticCallee(); callee != nil && recvNamed(callee) == m.Server && isGated(callee.Name()) && callee.Name() != name {
-							// delegation to a method that performs the test itself (same receiver)
-							if w.Expr(call.Common().Args[0]) == "p0" {
-								c.Ok("R1.gate", name+"|delegates to gated "+callee.Name(), w.Pos(ins.Pos()), "effect is a call of another gated method on the same receiver")
-								nEffects++
-								continue
+					for _, ins := range b.Instrs {
+						what, ok := m.effect(g, ins)
+						if !ok {
+							continue
+						}
+						// an ungated call of a helper of the server that performs the test itself (a guard taking the operation as
+						// a closure, a shared body): the effects are those inside it - and inside the closures handed to it, which
+						// run where it calls them - each judged with the facts that hold there
+						if call, isCall := ins.(*ssa.Call); isCall && depth < 3 {
+							if _, known := lockedIn(view, b); !known {
+								if h := w.helperOf(call); h != nil && w.transparent(h) && !w.dynCallable(h) && len(w.sitesIn(fr.entry, h)) == 1 {
+									scan(h, depth+1)
+									for _, a := range call.Call.Args {
+										if mc, isMC := throughCell(strip(a)).(*ssa.MakeClosure); isMC {
+											if clo, _ := mc.Fn.(*ssa.Function); clo != nil && w.callback(clo) {
+												scan(clo, depth+1)
+											}
+										}
+									}
+									continue
+								}
 							}
 						}
-					}
-					if _, isDefer := ins.(*ssa.Defer); isDefer {
-						continue
-					}
-					nEffects++
-					val, known := lockedIn(view, b)
-					key := name + "|" + what
-					switch {
-					case !known:
-						c.Bad("R1.gate", key, w.Pos(ins.Pos()), "effect reachable on a path where the lock flag was not tested (block trail: "+blockTrail(b)+")")
-					case val != want:
-						c.Bad("R1.gate", key, w.Pos(ins.Pos()), "effect reachable with the lock flag known to be "+boolStr(val))
-					default:
-						c.Ok("R1.gate", key, w.Pos(ins.Pos()), "must-fact lock flag == "+boolStr(val)+" at "+blockTrail(b))
+						if call, isCall := ins.(ssa.CallInstruction); isCall {
+							if callee := call.Common().StaticCallee(); callee != nil && recvNamed(callee) == m.Server && isGated(callee.Name()) && callee.Name() != name {
+								// delegation to a method that performs the test itself (same receiver)
+								if w.Expr(call.Common().Args[0]) == "p0" {
+									c.Ok("R1.gate", name+"|delegates to gated "+callee.Name(), w.Pos(ins.Pos()), "effect is a call of another gated method on the same receiver")
+									nEffects++
+									continue
+								}
+							}
+						}
+						if _, isDefer := ins.(*ssa.Defer); isDefer {
+							continue
+						}
+						nEffects++
+						val, known := lockedIn(view, b)
+						key := name + "|" + what
+						switch {
+						case !known:
+							c.Bad("R1.gate", key, w.Pos(ins.Pos()), "effect reachable on a path where the lock flag was not tested (block trail: "+blockTrail(b)+")")
+						case val != want:
+							c.Bad("R1.gate", key, w.Pos(ins.Pos()), "effect reachable with the lock flag known to be "+boolStr(val))
+						default:
+							c.Ok("R1.gate", key, w.Pos(ins.Pos()), "must-fact lock flag == "+boolStr(val)+" at "+blockTrail(b))
+						}
 					}
 				}
+			}
+			scan(fn, 0)
+			// the flag as known for one value that may be returned: at the return, or where a helper produced it
+			lockedFor := func(r *ssa.Return, lf Leaf) (bool, bool) {
+				if v, k := lockedIn(view, r.Block()); k {
+					return v, true
+				}
+				for l := range lf.Facts {
+					if v, ok := m.lockedLit(l); ok {
+						return v, true
+					}
+				}
+				return false, false
 			}
 			// returns under the 'wrong' flag value
 			nLockedRet := 0
@@ -803,6 +842,23 @@ func runC08(c *Ctx) {
 				c.Check(okRet, "R1.locked", key, w.Pos(r.Pos()), "returns a certainly non-nil error", "a return reachable while locked (not locked for Unlock) may yield a nil error: "+w.Expr(r.Results[max(idx, 0)]))
 			}
 			if name != "Sign" {
+				// the refusal produced by a guard helper whose result the method returns: counted, and certainly non-nil
+				if idx := errorResultIndex(fn); nLockedRet == 0 && idx >= 0 {
+					for _, r := range liveReturns(fn) {
+						if !live(r.Block()) {
+							continue
+						}
+						if _, k := lockedIn(view, r.Block()); k {
+							continue
+						}
+						for _, lf := range w.LeavesErr(r.Results[idx], r) {
+							if v, k := lockedFor(r, lf); k && v != want {
+								nLockedRet++
+								c.Check(w.NonNil(lf.Val, lf.Facts), "R1.locked", name+"|return under flag="+boolStr(v), w.Pos(r.Pos()), "returns a certainly non-nil error", "a value returned while locked (not locked for Unlock) may be a nil error: "+w.Short(lf.Val))
+							}
+						}
+					}
+				}
 				c.Floor("R1.locked", nLockedRet, 1, "refusing return in "+name)
 				// success only with the flag known to have the required value (List's empty answer excepted)
 				for _, r := range w.MayBeNilReturns(fn) {
@@ -812,6 +868,22 @@ func runC08(c *Ctx) {
 					val, known := lockedIn(view, r.Block())
 					if name == "List" && known && val {
 						continue
+					}
+					if idx := errorResultIndex(fn); !known && idx >= 0 {
+						// decided value by value: every value that may be nil was produced with the flag known
+						all, some := true, false
+						for _, lf := range w.LeavesErr(r.Results[idx], r) {
+							if w.NonNil(lf.Val, lf.Facts) {
+								continue
+							}
+							some = true
+							if v, k := lockedFor(r, lf); !k || v != want {
+								all = false
+							}
+						}
+						if all && some {
+							val, known = want, true
+						}
 					}
 					c.Check(known && val == want, "R1.locked", name+"|success only after the flag was tested", w.Pos(r.Pos()), "must-fact lock flag == "+boolStr(want), name+" can return success on a path where the lock flag was not tested (or has the wrong value): a locked agent answers")
 				}
@@ -829,12 +901,56 @@ func runC08(c *Ctx) {
 		if !ok {
 			continue
 		}
-		within(fr, func(fn *ssa.Function, view *Facts) {
+		within(fr, func(fn0 *ssa.Function, view *Facts) {
+			fn := fn0
 			live := func(b *ssa.BasicBlock) bool { return fr.site == nil || view.At(b) != nil }
 			var agentCall *ssa.Call
 			for _, call := range callsIn(fn) {
 				if cc, ok := call.(*ssa.Call); ok && cc.Call.IsInvoke() && cc.Call.Method.Name() == spec.name && m.isLoadOfField(cc.Call.Value, m.fAgent) && live(cc.Block()) {
 					agentCall = cc
+				}
+			}
+			if agentCall == nil {
+				// the operation's body handed as a closure to a guard helper that runs it (R1 judged the guard): the flip
+				// rules are read in the closure; the method returns what the guard returns, which is the closure's result
+				for _, ins := range instrsOf(fn0) {
+					mc, isMC := ins.(*ssa.MakeClosure)
+					if !isMC {
+						continue
+					}
+					clo, _ := mc.Fn.(*ssa.Function)
+					if clo == nil || !w.callback(clo) {
+						continue
+					}
+					for _, call := range callsIn(clo) {
+						if cc, ok := call.(*ssa.Call); ok && cc.Call.IsInvoke() && cc.Call.Method.Name() == spec.name && m.isLoadOfField(cc.Call.Value, m.fAgent) {
+							agentCall, fn = cc, clo
+						}
+					}
+				}
+				if fn != fn0 {
+					c.Saw(fn)
+					idx := errorResultIndex(fn0)
+					for _, r := range w.MayBeNilReturns(fn0) {
+						if fn0.Recover != nil && r.Block() == fn0.Recover {
+							continue
+						}
+						okBack := idx >= 0
+						for _, lf := range w.LeavesErr(r.Results[max(idx, 0)], r) {
+							if w.NonNil(lf.Val, lf.Facts) {
+								continue
+							}
+							dc, isCall := throughCell(strip(lf.Val)).(*ssa.Call)
+							if !isCall || dc.Call.StaticCallee() != nil || dc.Call.IsInvoke() {
+								okBack = false
+								continue
+							}
+							if p, isParam := dc.Call.Value.(*ssa.Parameter); !isParam || !w.inTree(fn0, p.Parent()) {
+								okBack = false
+							}
+						}
+						c.Check(okBack, "R2.flip", spec.name+"|returns the guarded operation's result", w.Pos(r.Pos()), "every possibly-nil result is what the operation closure returned", spec.name+" can report success with something other than the result of the operation it hands to the guard")
+					}
 				}
 			}
 			if agentCall == nil {
@@ -1003,6 +1119,10 @@ func runC08(c *Ctx) {
 	for _, a := range w.FieldAccesses(m.Owner(m.fLocked), m.fLocked) {
 		if a.Kind == "write" || a.Kind == "addr" || a.Kind == "addrcall" {
 			okW := flagWriters[a.Fn] && a.Kind == "write"
+			if p := a.Fn.Parent(); !okW && p != nil && flagWriters[p] && w.callback(a.Fn) && a.Kind == "write" {
+				okW = true // the operation's own body, run by a guard helper
+				writers[p.Name()] = true
+			}
 			if !flagWriters[a.Fn] && a.Kind == "write" && m.flagHelper(a.Fn, flagWriters) {
 				// a helper only Lock/Unlock call (R2.flip reads it per call site)
 				okW = true
@@ -1152,6 +1272,42 @@ func (m *shimModel) Body(name string) *ssa.Function {
 			return fn
 		}
 		h := w.helperOf(target)
+		// the guard form: the body handed as a closure to a helper of the server that runs it once the refusal test has
+		// passed (`return s.whileUnlocked(func() error { ... })`): the operation's frame is the closure
+		if h != nil && w.transparent(h) && !w.dynCallable(h) && recvNamed(h) == m.Server {
+			var clo *ssa.Function
+			nClo, plain := 0, true
+			for i, a := range target.Call.Args {
+				if i == 0 {
+					if a != ssa.Value(fn.Params[0]) {
+						plain = false
+					}
+					continue
+				}
+				if mc, isMC := throughCell(strip(a)).(*ssa.MakeClosure); isMC {
+					if cf, _ := mc.Fn.(*ssa.Function); cf != nil && w.callback(cf) {
+						clo = cf
+						nClo++
+						continue
+					}
+				}
+				plain = false
+			}
+			if nClo == 1 && plain {
+				onlyGuard := true
+				for _, call := range callsIn(fn) {
+					if call == ssa.CallInstruction(target) {
+						continue
+					}
+					if n := calleeName(call); !strings.HasPrefix(n, "(*sync.") && n != "errors.New" && n != "fmt.Errorf" {
+						onlyGuard = false
+					}
+				}
+				if onlyGuard {
+					return clo
+				}
+			}
+		}
 		if h == nil || !w.transparent(h) || w.dynCallable(h) || recvNamed(h) != m.Server || len(w.callSites(h)) != 1 || len(target.Call.Args) != len(fn.Params) {
 			return fn
 		}
